@@ -173,32 +173,111 @@ theorem settle_nr {a : St} {x : Bool} (h : a.errC = false ∨ (x = true ∧ a.er
   · exact Or.inl h
   · exact Or.inr h.2.2.1
 
-/-- **stop_reaches_stopped (general form).**  Whatever the torrent is doing (downloading, seeding,
-allocating or verifying behind a gate, fetching metadata, already stopping or stopped): after the `stop`
-command and the completions it releases, no verify is pending and the status is `Stopped` — or, if a
-tracker does not answer the `stopped` event (`stopHang`), `Stopping` with the announcer still waiting.
-Hypotheses: the loop has not panicked and no verify command is pending (`doVerify`; a pending verify turns
-the stop into a restart, see `verify_ends_stopped`). -/
-theorem stop_reaches_stopped_or_hangs (s : St) (p : Parked) (kn : Nat → Bool) (h : Life s)
-    (hp : s.panicked = none) (hv : s.doVerify = false) :
-    (step s p kn .stop).1.st.doVerify = false ∧
-    ((step s p kn .stop).1.st.status = .stopped ∨
-      (s.stopHang = true ∧ (step s p kn .stop).1.st.status = .stopping ∧ (step s p kn .stop).1.st.stopHang = true)) := by
+/-- The handler of the stop command (`Op.stop`, or `Op.stopHeld` which leaves the storage gates alone): the
+pending verification request is withdrawn (fix C04-F6), then `stop`. -/
+def IsStopOp (op : Op) : Prop := op = .stop ∨ op = .stopHeld
+
+/-- What the handler of a stop command leaves behind, whatever the state before (in particular whatever
+`doVerify` was): the invariant, no panic, **no verification request**, the torrent stopped or stopping. -/
+theorem handle_stopOp (s : St) (p : Parked) (kn : Nat → Bool) (op : Op) (hop : IsStopOp op) (h : Life s) :
+    Life (handle s p kn op).1.1 ∧ (handle s p kn op).1.1.panicked = s.panicked ∧
+    (handle s p kn op).1.1.doVerify = false ∧ (handle s p kn op).1.1.stopHang = s.stopHang ∧
+    ((handle s p kn op).1.1.errC = false ∨ (handle s p kn op).1.1.stopAnn = true) := by
+  refine ⟨handle_life s p kn op h, ?_⟩
+  rcases hop with rfl | rfl
+  · refine ⟨?_, ?_, ?_, ?_⟩
+    · simp only [handle, onSt_fst]; rw [stop_panicked]
+    · simp only [handle, onSt_fst, stop_doVerify]
+    · simp only [handle, onSt_fst, stop_stopHang]
+    · simp only [handle, onSt_fst]; exact stop_idle { s with doVerify := false } false
+  · refine ⟨?_, ?_, ?_, ?_⟩
+    · simp only [handle, onSt_fst]; rw [stop_panicked]
+    · simp only [handle, onSt_fst, stop_doVerify]
+    · simp only [handle, onSt_fst, stop_stopHang]
+    · simp only [handle, onSt_fst]; exact stop_idle { s with doVerify := false } false
+
+/-! ### nothing but the verify command sets `doVerify` (no invariant needed) -/
+
+theorem hadFresh_doVerify_false (m : M) (h : m.1.doVerify = false) : (hadFresh m).1.doVerify = false := by
+  unfold hadFresh
+  dsimp only
+  split
+  · simp
+  · simpa using h
+
+theorem handleAllocationDone_doVerify_false (m : M) (he hm : Bool) (h : m.1.doVerify = false) :
+    (handleAllocationDone m he hm).1.doVerify = false := by
+  rw [handleAllocationDone_eq]
+  dsimp only
+  repeat' split
+  all_goals first
+    | (apply hadFresh_doVerify_false; simpa using h)
+    | simpa using h
+
+theorem allocatorRun_doVerify_false (m : M) (h : m.1.doVerify = false) : (allocatorRun m).1.doVerify = false := by
+  unfold allocatorRun
+  dsimp only
+  split
+  · simpa using h
+  · apply handleAllocationDone_doVerify_false; simpa using h
+
+theorem runWorkers_doVerify_false (fuel : Nat) (m : M) (h : m.1.doVerify = false) :
+    (runWorkers fuel m).1.doVerify = false := by
+  induction fuel generalizing m with
+  | zero => exact h
+  | succ n ih =>
+    unfold runWorkers
+    dsimp only
+    repeat' split
+    all_goals first
+      | exact h
+      | (apply ih
+         first
+           | simpa using h
+           | exact allocatorRun_doVerify_false m h
+           | exact handleVerificationDone_doVerify m h)
+
+theorem deliverParked_doVerify_false (m : M) (p : Parked) (h : m.1.doVerify = false) :
+    (deliverParked m p).1.1.doVerify = false := by
+  unfold deliverParked
+  repeat' split
+  all_goals first
+    | exact h
+    | (apply runWorkers_doVerify_false; simpa using h)
+
+/-- **The stop command withdraws a pending verification request** (fix C04-F6), at the end of the whole step,
+from **every** state — no invariant, panicked or not, whatever the gates and the parked message. -/
+theorem stopOp_withdraws_verify (s : St) (p : Parked) (kn : Nat → Bool) (op : Op) (hop : IsStopOp op) :
+    (handle s p kn op).1.1.doVerify = false ∧ (step s p kn op).1.st.doVerify = false := by
+  have hh : ∀ s : St, (handle s p kn op).1.1.doVerify = false := by
+    intro s
+    rcases hop with rfl | rfl <;> simp only [handle, onSt_fst, stop_doVerify]
+  refine ⟨hh s, ?_⟩
+  rw [step_st]
+  have h2 := runWorkers_doVerify_false 12 _ (hh { s with sto := [], mayStart := [], closedDl := [], mayStartI := false })
+  split
+  · exact deliverParked_doVerify_false _ _ h2
+  · exact h2
+
+/-- **stop_reaches_stopped (general form, both stop ops).**  Whatever the torrent is doing (downloading,
+seeding, allocating or verifying behind a gate, fetching metadata, already stopping or stopped) and whether
+or not a verification has been requested (`doVerify`: the stop command withdraws the request, fix C04-F6):
+after the stop command and the completions it releases, no verify is pending and the status is `Stopped` —
+or, if a tracker does not answer the `stopped` event (`stopHang`), `Stopping` with the announcer still
+waiting.  The only hypothesis beyond the invariant: the loop has not panicked. -/
+theorem stopOp_reaches_stopped_or_hangs (s : St) (p : Parked) (kn : Nat → Bool) (op : Op) (hop : IsStopOp op)
+    (h : Life s) (hp : s.panicked = none) :
+    (step s p kn op).1.st.doVerify = false ∧
+    ((step s p kn op).1.st.status = .stopped ∨
+      (s.stopHang = true ∧ (step s p kn op).1.st.status = .stopping ∧ (step s p kn op).1.st.stopHang = true)) := by
   rw [status_stopped_iff, status_stopping_iff, step_st]
-  -- the state after the handler
-  generalize hm : (handle { s with sto := [], mayStart := [], closedDl := [], mayStartI := false } p kn .stop) = r
   have h0 : Life { s with sto := [], mayStart := [], closedDl := [], mayStartI := false } := h.congr (by lframe)
-  have hl : Life r.1.1 := by rw [← hm]; exact handle_life _ p kn .stop h0
-  have hpan : r.1.1.panicked = none := by
-    rw [← hm]; simp only [handle, onSt_fst]; rw [stop_panicked]; exact hp
-  have hdv : r.1.1.doVerify = false := by
-    rw [← hm]; simp only [handle, onSt_fst, stop_doVerify]; exact hv
-  have hsh : r.1.1.stopHang = s.stopHang := by
-    rw [← hm]; simp only [handle, onSt_fst, stop_stopHang]
-  have hnr : r.1.1.errC = false ∨ r.1.1.stopAnn = true := by
-    rw [← hm]
-    simp only [handle, onSt_fst]
-    exact stop_idle { s with sto := [], mayStart := [], closedDl := [], mayStartI := false } false
+  obtain ⟨hl, hpan, hdv, hsh, hnr⟩ := handle_stopOp _ p kn op hop h0
+  -- the state after the handler
+  generalize (handle { s with sto := [], mayStart := [], closedDl := [], mayStartI := false } p kn op) = r
+    at hl hpan hdv hsh hnr
+  replace hpan : r.1.1.panicked = none := hpan.trans hp
+  replace hsh : r.1.1.stopHang = s.stopHang := hsh
   obtain ⟨h1, h2⟩ := settle_not_running 11 r.1 hl hpan hdv hnr
   rw [settle_step _ r.2.2 p.isSome (runWorkers_life 12 r.1 hl) (settle_nr h2)]
   refine ⟨h1, ?_⟩
@@ -206,12 +285,37 @@ theorem stop_reaches_stopped_or_hangs (s : St) (p : Parked) (kn : Nat → Bool) 
   · exact Or.inl h2
   · exact Or.inr ⟨hsh ▸ h2, ⟨h3.1, h3.2.1⟩, h3.2.2⟩
 
+/-- `Op.stop` form.  **No hypothesis about `doVerify` any more** (until the fix of C04-F6 a pending verify
+turned the stop into a restart and the theorem needed `doVerify = false`). -/
+theorem stop_reaches_stopped_or_hangs (s : St) (p : Parked) (kn : Nat → Bool) (h : Life s)
+    (hp : s.panicked = none) :
+    (step s p kn .stop).1.st.doVerify = false ∧
+    ((step s p kn .stop).1.st.status = .stopped ∨
+      (s.stopHang = true ∧ (step s p kn .stop).1.st.status = .stopping ∧ (step s p kn .stop).1.st.stopHang = true)) :=
+  stopOp_reaches_stopped_or_hangs s p kn .stop (Or.inl rfl) h hp
+
+/-- `Op.stopHeld` form: the storage gates stay as they are. -/
+theorem stopHeld_reaches_stopped_or_hangs (s : St) (p : Parked) (kn : Nat → Bool) (h : Life s)
+    (hp : s.panicked = none) :
+    (step s p kn .stopHeld).1.st.doVerify = false ∧
+    ((step s p kn .stopHeld).1.st.status = .stopped ∨
+      (s.stopHang = true ∧ (step s p kn .stopHeld).1.st.status = .stopping ∧
+        (step s p kn .stopHeld).1.st.stopHang = true)) :=
+  stopOp_reaches_stopped_or_hangs s p kn .stopHeld (Or.inr rfl) h hp
+
 /-- **stop_reaches_stopped.**  With every tracker answering (`stopHang = false`) the status after the
 `stop` command is `Stopped`. -/
 theorem stop_reaches_stopped (s : St) (p : Parked) (kn : Nat → Bool) (h : Life s)
-    (hp : s.panicked = none) (hv : s.doVerify = false) (hh : s.stopHang = false) :
+    (hp : s.panicked = none) (hh : s.stopHang = false) :
     (step s p kn .stop).1.st.status = .stopped := by
-  rcases (stop_reaches_stopped_or_hangs s p kn h hp hv).2 with h1 | h1
+  rcases (stop_reaches_stopped_or_hangs s p kn h hp).2 with h1 | h1
+  · exact h1
+  · rw [hh] at h1; cases h1.1
+
+theorem stopHeld_reaches_stopped (s : St) (p : Parked) (kn : Nat → Bool) (h : Life s)
+    (hp : s.panicked = none) (hh : s.stopHang = false) :
+    (step s p kn .stopHeld).1.st.status = .stopped := by
+  rcases (stopHeld_reaches_stopped_or_hangs s p kn h hp).2 with h1 | h1
   · exact h1
   · rw [hh] at h1; cases h1.1
 
@@ -241,16 +345,47 @@ theorem waitstop_reaches_stopped (s : St) (p : Parked) (kn : Nat → Bool) (h : 
   · exact h2
   · rw [hsh] at h2; cases h2
 
-/-- `stop`, then (if a tracker hangs) the stop timeout: `Stopped`.  The only thing the intermediate state
-must not have done is panic (a write that was in flight completes during the stop; see `no_panic_partial`). -/
-theorem stop_waitstop_reaches_stopped (s : St) (p : Parked) (kn kn' : Nat → Bool) (h : Life s)
-    (hp : s.panicked = none) (hv : s.doVerify = false)
-    (hp' : (step s p kn .stop).1.st.panicked = none) :
-    (step (step s p kn .stop).1.st (step s p kn .stop).2 kn' .waitstop).1.st.status = .stopped := by
-  obtain ⟨h1, h2⟩ := stop_reaches_stopped_or_hangs s p kn h hp hv
-  refine (waitstop_reaches_stopped _ _ kn' (step_life s p kn .stop h) hp' h1 ?_).1
+/-- A stop command, then (if a tracker hangs) the stop timeout: `Stopped`.  The only thing the intermediate
+state must not have done is panic (a write that was in flight completes during the stop; see `no_panic_partial`). -/
+theorem stopOp_waitstop_reaches_stopped (s : St) (p : Parked) (kn kn' : Nat → Bool) (op : Op) (hop : IsStopOp op)
+    (h : Life s) (hp : s.panicked = none) (hp' : (step s p kn op).1.st.panicked = none) :
+    (step (step s p kn op).1.st (step s p kn op).2 kn' .waitstop).1.st.status = .stopped := by
+  obtain ⟨h1, h2⟩ := stopOp_reaches_stopped_or_hangs s p kn op hop h hp
+  refine (waitstop_reaches_stopped _ _ kn' (step_life s p kn op h) hp' h1 ?_).1
   rcases h2 with h2 | h2
   · exact Or.inr h2
   · exact Or.inl h2.2.1
+
+theorem stop_waitstop_reaches_stopped (s : St) (p : Parked) (kn kn' : Nat → Bool) (h : Life s)
+    (hp : s.panicked = none)
+    (hp' : (step s p kn .stop).1.st.panicked = none) :
+    (step (step s p kn .stop).1.st (step s p kn .stop).2 kn' .waitstop).1.st.status = .stopped :=
+  stopOp_waitstop_reaches_stopped s p kn kn' .stop (Or.inl rfl) h hp hp'
+
+/-- **A stop command during a requested verification** (finding C04-F6), in full: whatever the status, the
+gates and `doVerify` were, after `Op.stop` / `Op.stopHeld` the torrent is `Stopped` — or `Stopping` behind a
+tracker that does not answer —, in particular neither `Allocating` nor `Verifying`; no allocator and no
+verifier is left and the verification request is gone, so nothing will restart the torrent. -/
+theorem stopOp_ends_stopped (s : St) (p : Parked) (kn : Nat → Bool) (op : Op) (hop : IsStopOp op)
+    (h : Life s) (hp : s.panicked = none) :
+    ((step s p kn op).1.st.status = .stopped ∨
+      (s.stopHang = true ∧ (step s p kn op).1.st.status = .stopping ∧ (step s p kn op).1.st.stopHang = true)) ∧
+    (step s p kn op).1.st.status ≠ .verifying ∧ (step s p kn op).1.st.status ≠ .allocating ∧
+    (step s p kn op).1.st.doVerify = false ∧
+    (step s p kn op).1.st.allocator = false ∧ (step s p kn op).1.st.verifier = false := by
+  obtain ⟨h1, h2⟩ := stopOp_reaches_stopped_or_hangs s p kn op hop h hp
+  have hl := step_life s p kn op h
+  have hq : (step s p kn op).1.st.errC = false ∨ (step s p kn op).1.st.stopAnn = true := by
+    rcases h2 with h2 | h2
+    · exact Or.inl ((status_stopped_iff _).1 h2)
+    · exact Or.inr ((status_stopping_iff _).1 h2.2.1).2
+  obtain ⟨i1, i2, _⟩ := hl.idle hq
+  refine ⟨h2, ?_, ?_, h1, i1, i2⟩
+  · rcases h2 with h2 | h2
+    · rw [h2]; decide
+    · rw [h2.2.1]; decide
+  · rcases h2 with h2 | h2
+    · rw [h2]; decide
+    · rw [h2.2.1]; decide
 
 end Rain.Loop
